@@ -1,6 +1,6 @@
-(* Proofs about EPModel.  Statements are fixed by Properties_C09.v. *)
+(* Proofs about EPModel.  Statements are fixed by Properties_C09.v.  The invariants live in EPBase/EPInvA/EPInvB/EPInvO/EPInvP. *)
 From Coq Require Import ZArith List Bool Lia Arith PeanoNat.
-Require Import Verif.Base.Atomics Verif.Gen.Gen_epoch Verif.Conc.Machine Verif.EP.EPModel.
+Require Import Verif.Base.Atomics Verif.Gen.Gen_epoch Verif.Conc.Machine Verif.EP.EPModel Verif.EP.EPBase Verif.EP.EPInvA Verif.EP.EPInvB Verif.EP.EPInvO Verif.EP.EPInvP Verif.EP.EPInvR.
 Import ListNotations.
 Local Open Scope Z_scope.
 
@@ -18,3 +18,247 @@ Definition orders_ok : bool :=
 
 Lemma ep_orders_ok : orders_ok = true.
 Proof. vm_compute. reflexivity. Qed.
+
+Lemma mem_false : forall o l, ~ In o l -> mem o l = false.
+Proof.
+  intros o l H. unfold mem. destruct (existsb (Nat.eqb o) l) eqn:E; [|reflexivity].
+  apply existsb_exists in E. destruct E as [x [Hx Hq]]. apply Nat.eqb_eq in Hq. subst. contradiction.
+Qed.
+
+Lemma stepP_uaf : forall s t s', InvP s -> step s t = Some s' -> uaf s' = false.
+Proof.
+  intros s t s' IP H. pose proof (p_uaf _ IP) as Hu. pose proof (p_live _ IP) as Hl.
+  step_cases H; simp; try assumption.
+  rewrite Hu. cbn. apply mem_false. eapply Hl. eassumption.
+Qed.
+
+Lemma InvP_step : forall s t s', InvA s -> InvB s -> InvO s -> InvP s -> step s t = Some s' -> InvP s'.
+Proof.
+  intros s t s' IA IB IO IP H. constructor.
+  - eapply stepP_idx; eauto.
+  - eapply stepP_dep; eauto.
+  - eapply stepP_pub; eauto.
+  - eapply stepP_live; eauto.
+  - eapply stepP_ret; eauto.
+  - eapply stepP_coll; eauto.
+  - eapply stepP_uaf; eauto.
+Qed.
+
+Lemma step_gver_mono : forall s t s', step s t = Some s' -> gver s <= gver s'.
+Proof. intros s t s' H. pose proof tick_inc_spec. step_cases H; simp; lia. Qed.
+
+Definition Inv (s : st) : Prop := InvA s /\ InvO s /\ (gver s < SLOT_IDLE -> InvB s /\ InvP s).
+
+Lemma Inv_step : forall s t s', Inv s -> step s t = Some s' -> Inv s'.
+Proof.
+  intros s t s' (IA & IO & IBP) H. pose proof (step_gver_mono _ _ _ H) as Hm.
+  split; [eapply InvA_step; eauto|]. split; [eapply InvO_step; eauto|].
+  intro Hov. destruct (IBP ltac:(lia)) as [IB IP]. split; [eapply InvB_step; eauto; lia | eapply InvP_step; eauto].
+Qed.
+
+(* ---- the initial state ---- *)
+Definition wf_init (anext0 : nat) (afree0 : list nat) : Prop := NoDup afree0 /\ forall x, In x afree0 -> (x < anext0)%nat.
+
+Lemma init_handle : forall l h, hidx (getn handle0 (map mk_handle l) h) = None /\ hdepth (getn handle0 (map mk_handle l) h) = 0 /\
+  hheld (getn handle0 (map mk_handle l) h) = None.
+Proof. unfold getn. induction l as [|a l IH]; intros [|h]; cbn; auto. Qed.
+Lemma init_thread : forall progs t th, nth_error (map mk_thread progs) t = Some th -> tpc th = Idle /\ retired th = [].
+Proof. intros progs t th H. rewrite nth_error_map in H. destruct (nth_error progs t); [|discriminate]. injection H as <-. auto. Qed.
+Lemma init_slot : forall i, getn slot0 [] i = slot0.
+Proof. intros [|i]; reflexivity. Qed.
+
+Lemma Inv_init : forall tlm e owners anext0 afree0 vsize0 progs, wf_init anext0 afree0 ->
+  Inv (init tlm e owners anext0 afree0 vsize0 progs).
+Proof.
+  intros tlm e owners anext0 afree0 vsize0 progs [Hnd Hfr].
+  assert (HH : forall h, hidx (get_h (init tlm e owners anext0 afree0 vsize0 progs) h) = None /\
+                         hdepth (get_h (init tlm e owners anext0 afree0 vsize0 progs) h) = 0 /\
+                         hheld (get_h (init tlm e owners anext0 afree0 vsize0 progs) h) = None)
+    by (intro h; unfold get_h, init; cbn [handles]; apply init_handle).
+  assert (HT : forall t th, thr (init tlm e owners anext0 afree0 vsize0 progs) t th -> tpc th = Idle /\ retired th = [])
+    by (intros t th H; unfold thr, init in H; cbn [threads] in H; eapply init_thread; eauto).
+  assert (HS : forall i, get_slot (init tlm e owners anext0 afree0 vsize0 progs) i = slot0)
+    by (intro i; unfold get_slot, init; cbn [slots]; apply init_slot).
+  split; [|split].
+  - constructor.
+    + intros h h' i H. destruct (HH h) as (E & _). congruence.
+    + intros h i H. destruct (HH h) as (E & _). congruence.
+    + exact Hnd.
+    + exact Hfr.
+    + intros t th h i Ht Hp. destruct (HT _ _ Ht) as [E _]. congruence.
+    + intros t th h i t' th' h' Ht _ Hp. destruct (HT _ _ Ht) as [E _]. congruence.
+    + intros t th h i Ht Hp. destruct (HT _ _ Ht) as [E _]. rewrite E in Hp. discriminate.
+    + intros h _. destruct (HH h) as (_ & E1 & E2). auto.
+  - constructor; unfold dead; cbn [init cell nobj freed].
+    + lia.
+    + intros o [].
+    + intros t th o T Ht Hin. destruct (HT _ _ Ht) as [_ E]. rewrite E in Hin. destruct Hin.
+    + intros t th o Ht Hp. destruct (HT _ _ Ht) as [E _]. congruence.
+    + intros t th m todo all o T Ht Hp. destruct (HT _ _ Ht) as [E _]. congruence.
+  - intros _. split; constructor.
+    + intro i. left. rewrite HS. reflexivity.
+    + intros t th h i g Ht Hp. destruct (HT _ _ Ht) as [E _]. congruence.
+    + intro i. rewrite HS. cbn. rewrite slot_init_spec. lia.
+    + intros i H. rewrite HS in H. cbn in H. congruence.
+    + intros i H. rewrite HS in H. cbn in H. rewrite slot_init_spec in H. lia.
+    + intros t th h i Ht Hp. destruct (HT _ _ Ht) as [E _]. rewrite E in Hp. discriminate.
+    + intros t th h i Ht Hp. destruct (HT _ _ Ht) as [E _]. congruence.
+    + intros h i H. destruct (HH h) as (E & _). congruence.
+    + intros h o H. destruct (HH h) as (_ & _ & E). congruence.
+    + intros h o H. destruct (HH h) as (_ & _ & E). congruence.
+    + intros h o i H. destruct (HH h) as (_ & _ & E). congruence.
+    + intros h o H. destruct (HH h) as (_ & _ & E). congruence.
+    + intros h o i t th T H. destruct (HH h) as (_ & _ & E). congruence.
+    + intros h o i t th H. destruct (HH h) as (_ & _ & E). congruence.
+    + reflexivity.
+Qed.
+
+(* ---- vocabulary used by the statements ---- *)
+Definition Reach (tlm : bool) (e : nat) (owners : list nat) (anext0 : nat) (afree0 : list nat) (vsize0 : nat)
+                 (progs : list (list op)) (s : st) : Prop :=
+  reachable st step (init tlm e owners anext0 afree0 vsize0 progs) s.
+Definition no_overflow (s : st) : Prop := gver s < SLOT_IDLE.
+(* some thread is inside lock() on slot i, between the lock_times increment and the publication of the version *)
+Definition entering (s : st) (i : nat) : Prop := exists t th h, thr s t th /\ pc_lk (tpc th) = Some (h, i).
+
+Lemma ep_inv : forall tlm e owners anext0 afree0 vsize0 progs s, wf_init anext0 afree0 ->
+  Reach tlm e owners anext0 afree0 vsize0 progs s -> Inv s.
+Proof.
+  intros tlm e owners anext0 afree0 vsize0 progs s Hwf Hr.
+  eapply (inv_reachable st step Inv); [apply Inv_init; exact Hwf | intros; eapply Inv_step; eauto | exact Hr].
+Qed.
+
+Lemma ep_safety_sc : forall tlm e owners anext0 afree0 vsize0 progs s, wf_init anext0 afree0 ->
+  Reach tlm e owners anext0 afree0 vsize0 progs s -> no_overflow s -> uaf s = false.
+Proof. intros. destruct (ep_inv _ _ _ _ _ _ _ _ H H0) as (_ & _ & IBP). destruct (IBP H1) as [_ IP]. apply (p_uaf _ IP). Qed.
+
+Lemma ep_held_not_freed : forall tlm e owners anext0 afree0 vsize0 progs s h o, wf_init anext0 afree0 ->
+  Reach tlm e owners anext0 afree0 vsize0 progs s -> no_overflow s ->
+  hheld (get_h s h) = Some o -> ~ In o (freed s).
+Proof. intros. destruct (ep_inv _ _ _ _ _ _ _ _ H H0) as (_ & _ & IBP). destruct (IBP H1) as [_ IP]. eapply (p_live _ IP); eauto. Qed.
+
+Lemma ep_reader_holds_mark : forall tlm e owners anext0 afree0 vsize0 progs s h o i, wf_init anext0 afree0 ->
+  Reach tlm e owners anext0 afree0 vsize0 progs s -> no_overflow s ->
+  hheld (get_h s h) = Some o -> hidx (get_h s h) = Some i ->
+  ver (get_slot s i) <> SLOT_IDLE /\ ver (get_slot s i) <= gver s /\
+  (forall t th T, thr s t th -> In (o, T) (retired th) -> ver (get_slot s i) < T) /\
+  (forall t th n k mn T, thr s t th -> tpc th = CScan n k mn -> In (o, T) (retired th) -> mn < T \/ (k <= i < n)%nat) /\
+  (forall t th m todo all T, thr s t th -> tpc th = CFree m todo all -> ~ In (o, T) todo).
+Proof.
+  intros tlm e owners anext0 afree0 vsize0 progs s h o i Hwf Hr Hov Hh Hi.
+  destruct (ep_inv _ _ _ _ _ _ _ _ Hwf Hr) as (_ & _ & IBP). destruct (IBP Hov) as [IB IP].
+  pose proof (p_pub _ IP _ _ _ Hh Hi) as Hp.
+  split; [exact Hp|]. split; [destruct (b_ver _ IB i); [congruence | assumption]|].
+  split; [intros; eapply (p_ret _ IP); eauto|].
+  split.
+  - intros t th n k mn T Ht Hpc Hin. pose proof (p_coll _ IP _ _ _ _ _ Hh Hi Ht) as C. unfold coll_ok in C. rewrite Hpc in C. auto.
+  - intros t th m todo all T Ht Hpc. pose proof (p_coll _ IP _ _ _ _ _ Hh Hi Ht) as C. unfold coll_ok in C. rewrite Hpc in C. auto.
+Qed.
+
+Lemma ep_open_region_published : forall tlm e owners anext0 afree0 vsize0 progs s h i, wf_init anext0 afree0 ->
+  Reach tlm e owners anext0 afree0 vsize0 progs s -> no_overflow s ->
+  hidx (get_h s h) = Some i -> 1 <= hdepth (get_h s h) -> ~ entering s i ->
+  ver (get_slot s i) <> SLOT_IDLE /\ ver (get_slot s i) <= gver s.
+Proof.
+  intros tlm e owners anext0 afree0 vsize0 progs s h i Hwf Hr Hov Hi Hd Hne.
+  destruct (ep_inv _ _ _ _ _ _ _ _ Hwf Hr) as (_ & _ & IBP). destruct (IBP Hov) as [IB IP].
+  assert (Hp : ver (get_slot s i) <> SLOT_IDLE).
+  { intro Hv. apply Hne. pose proof (b_dep _ IB _ _ Hi). apply (b_idle _ IB i); [lia | exact Hv]. }
+  split; [exact Hp | destruct (b_ver _ IB i); [congruence | assumption]].
+Qed.
+
+Lemma ep_unlocked_slot_idle : forall tlm e owners anext0 afree0 vsize0 progs s i, wf_init anext0 afree0 ->
+  Reach tlm e owners anext0 afree0 vsize0 progs s -> no_overflow s ->
+  lt (get_slot s i) = 0 -> ver (get_slot s i) = SLOT_IDLE.
+Proof.
+  intros tlm e owners anext0 afree0 vsize0 progs s i Hwf Hr Hov Hl.
+  destruct (ep_inv _ _ _ _ _ _ _ _ Hwf Hr) as (_ & _ & IBP). destruct (IBP Hov) as [IB IP].
+  destruct (Z.eq_dec (ver (get_slot s i)) SLOT_IDLE) as [E|E]; [exact E | pose proof (b_pub _ IB _ E); lia].
+Qed.
+
+(* accessor slots are unique: two live accessors never share a slot, an op in progress belongs to the owner *)
+Lemma ep_slots_exclusive : forall tlm e owners anext0 afree0 vsize0 progs s, wf_init anext0 afree0 ->
+  Reach tlm e owners anext0 afree0 vsize0 progs s ->
+  (forall h h' i, hidx (get_h s h) = Some i -> hidx (get_h s h') = Some i -> h = h') /\
+  (forall h i, hidx (get_h s h) = Some i -> (i < anext s)%nat /\ (i < vsize s)%nat /\ ~ In i (afree s)) /\
+  (forall t th h i, thr s t th -> pc_bound (tpc th) = Some (h, i) -> howner (get_h s h) = t /\ hidx (get_h s h) = Some i).
+Proof.
+  intros. destruct (ep_inv _ _ _ _ _ _ _ _ H H0) as (IA & _ & _).
+  split; [apply (a_inj _ IA)|]. split; [apply (a_rng _ IA) | apply (a_own _ IA)].
+Qed.
+
+(* the full statement 'a released Accessor never holds the mark back' is false of the code: release() of an
+   Accessor whose region is open leaves the slot published *)
+Lemma ep_release_while_locked_refuted :
+  exists s, Reach false 0 [0%nat] 0 [] 0 [[OCreate 0; OLock 0; ORelease 0]] s /\ all_done s = true /\
+            (forall h, hidx (get_h s h) = None) /\ ver (get_slot s 0) <> SLOT_IDLE /\ rwl s = true.
+Proof.
+  eexists. split; [exists [0; 0; 0; 0; 0; 0; 0]%nat; reflexivity|].
+  split; [vm_compute; reflexivity|]. split.
+  - intros [|[|h]]; vm_compute; reflexivity.
+  - split; [vm_compute; discriminate | vm_compute; reflexivity].
+Qed.
+
+(* non-vacuity *)
+Lemma ep_wf_init_example : wf_init 0 [].
+Proof. split; [constructor | intros x []]. Qed.
+Lemma ep_reach_example :
+  exists s, Reach false 0 [0%nat] 0 [] 0 [[OCreate 0; OLock 0; ORead 0]; [OUnlink; OCollect]] s /\
+            hheld (get_h s 0) = Some 0%nat /\ hidx (get_h s 0) = Some 0%nat /\ no_overflow s /\
+            exists th, thr s 1 th /\ tpc th = CScan 1 0 SLOT_IDLE /\ In (0%nat, 1) (retired th).
+Proof.
+  eexists. split; [exists [0; 0; 0; 0; 0; 0; 0; 1; 1; 1; 1]%nat; reflexivity|].
+  split; [vm_compute; reflexivity|]. split; [vm_compute; reflexivity|]. split; [vm_compute; reflexivity|].
+  eexists. split; [vm_compute; reflexivity|]. split; [vm_compute; reflexivity | vm_compute; left; reflexivity].
+Qed.
+
+Definition Inv2 (s : st) : Prop := Inv s /\ (gver s < SLOT_IDLE -> InvR s).
+
+Lemma Inv2_step : forall s t s', Inv2 s -> step s t = Some s' -> Inv2 s'.
+Proof.
+  intros s t s' [I IR] H. pose proof (step_gver_mono _ _ _ H) as Hm. split; [eapply Inv_step; eauto|].
+  intro Hov. destruct I as (IA & _ & IBP). destruct (IBP ltac:(lia)) as [IB _]. eapply InvR_step; eauto. apply IR. lia.
+Qed.
+
+Lemma Inv2_init : forall tlm e owners anext0 afree0 vsize0 progs, wf_init anext0 afree0 ->
+  Inv2 (init tlm e owners anext0 afree0 vsize0 progs).
+Proof.
+  intros. split; [apply Inv_init; assumption|]. intros _ _. split.
+  - intros h i Hi. unfold get_h, init in Hi. cbn [handles] in Hi. destruct (init_handle (if tlm then seq 0 (length progs) else owners) h) as (E & _). congruence.
+  - intros i _. unfold get_slot, init. cbn [slots]. rewrite init_slot. cbn. apply slot_init_spec.
+Qed.
+
+Lemma ep_inv2 : forall tlm e owners anext0 afree0 vsize0 progs s, wf_init anext0 afree0 ->
+  Reach tlm e owners anext0 afree0 vsize0 progs s -> Inv2 s.
+Proof.
+  intros tlm e owners anext0 afree0 vsize0 progs s Hwf Hr.
+  eapply (inv_reachable st step Inv2); [apply Inv2_init; exact Hwf | intros; eapply Inv2_step; eauto | exact Hr].
+Qed.
+
+Lemma bound_dec : forall l i, (exists h, hidx (getn handle0 l h) = Some i) \/ (forall h, hidx (getn handle0 l h) <> Some i).
+Proof.
+  unfold getn. induction l as [|a l IH]; intro i.
+  - right. intros [|h]; cbn; discriminate.
+  - destruct (hidx a) as [j|] eqn:Ea.
+    + destruct (Nat.eq_dec j i) as [->|Hne].
+      * left. exists 0%nat. exact Ea.
+      * destruct (IH i) as [[h Hh]|Hn]; [left; exists (S h); exact Hh | right; intros [|h]; cbn; [congruence | apply Hn]].
+    + destruct (IH i) as [[h Hh]|Hn]; [left; exists (S h); exact Hh | right; intros [|h]; cbn; [congruence | apply Hn]].
+Qed.
+
+Lemma ep_released_never_blocks_partial : forall tlm e owners anext0 afree0 vsize0 progs s i, wf_init anext0 afree0 ->
+  Reach tlm e owners anext0 afree0 vsize0 progs s -> no_overflow s -> rwl s = false ->
+  (forall h, hidx (get_h s h) = Some i -> hdepth (get_h s h) = 0) ->
+  ver (get_slot s i) = SLOT_IDLE.
+Proof.
+  intros tlm e owners anext0 afree0 vsize0 progs s i Hwf Hr Hov Hrwl Hun.
+  destruct (ep_inv2 _ _ _ _ _ _ _ _ Hwf Hr) as [(IA & _ & IBP) IR]. destruct (IBP Hov) as [IB _]. destruct (IR Hov Hrwl) as [R1 R2].
+  assert (Hl : lt (get_slot s i) = 0).
+  { destruct (bound_dec (handles s) i) as [[h Hh]|Hn]; [rewrite (R1 _ _ Hh); apply Hun; exact Hh | apply R2; exact Hn]. }
+  destruct (Z.eq_dec (ver (get_slot s i)) SLOT_IDLE) as [E|E]; [exact E | pose proof (b_pub _ IB _ E); lia].
+Qed.
+
+Lemma ep_tick_spec : tick_ret = tick_inc /\ tick_inc = 1.
+Proof. split; reflexivity. Qed.
+Lemma ep_idle_spec : SLOT_IDLE = 2 ^ 64 - 1 /\ lwm_init = SLOT_IDLE /\ unlock_value = SLOT_IDLE.
+Proof. repeat split; reflexivity. Qed.
